@@ -184,6 +184,9 @@ class Interp:
             if n["op"] == "&&":
                 return a and self.cond(n["c"][1])
             return a or self.cond(n["c"][1])
+        if k == "CXXMemberCallExpr" and (n.get("callee") or "").endswith("::empty") and (not n.get("c") or not (astq.strip(n["c"][0]) or {}).get("c") or (astq.strip((astq.strip(n["c"][0]) or {}).get("c", [{}])[0]) or {}).get("k") == "CXXThisExpr"):
+            # the list's own emptiness test
+            return self.heap.get(("list", "first")) == NULL
         # pointer used as a condition
         return self.val(n) != NULL
 
